@@ -1709,6 +1709,14 @@ class Interp:
                 return pybuiltins.str_concat(a, b)
             r = _num(a) + _num(b)
             return r
+        # operators that bytes / str / list / None / instances do not have: the interpreted TypeError, not a checker error
+        if not isinstance(op, (ast.Add, ast.Mult, ast.Mod)):
+            for x in (a, b):
+                if x is None or isinstance(x, (BytesVal, ABytes, SStr, str, list, tuple, dict, Instance)) and not isinstance(x, EnumMember) \
+                        and getattr(x, "py_sub", None) is None and not hasattr(x, "py_binop"):
+                    if isinstance(x, Instance) and any(x.cls.lookup(m) is not MISSING for m in ("__sub__", "__rsub__", "__or__", "__and__", "__lt__", "__truediv__", "__floordiv__")):
+                        continue
+                    raise self.exc("TypeError", f"unsupported operand type(s) for {type(op).__name__}")
         if isinstance(op, ast.Sub):
             pb = getattr(a, "py_sub", None)
             if pb is not None:
